@@ -1,6 +1,6 @@
 CONSTANTS AsWritten = FALSE
-  MCMaxScript = 3
-  MCEntries = {"dialerr", "closeBefore", "closePartial", "stall", "ok", "okStale", "s502", "r302path", "r301relStale", "r303queryLive", "r307abs", "r302none"}
+  MCMaxScript = 4
+  MCEntries = {"dialerr", "closeBefore", "closePartial", "stall", "ok", "okLive", "okStale", "s502", "r302path", "r301relStale", "r303queryLive", "r307abs", "r308schrel", "r302none"}
   MCApis = {"do", "reqtimeout", "redirects"}
   MCRetryIfs = {"default", "always", "err", "s5xx", "cancel"}
   MCWarms = {"none", "live", "stale"}
